@@ -194,6 +194,9 @@ func runC03(w *World) {
 	w.drawWeights()
 	w.cut = cutMode(w.knob("cut", 2))
 	n := w.addNode("n1", "10.0.0.1", 9851)
+	// healthy sinks for the webhook endpoints the programs register
+	w.addWebhook("hook0.sim:80", nil)
+	w.addWebhook("hook1.sim:80", nil)
 	inst := n.start()
 	if !inst.ready() {
 		w.harnessErr("node did not start")
